@@ -421,6 +421,32 @@ Example c18_overlay_refuses_climbing_link_ex :
   hd_error (cc (join [join_sl [s "opt"]; s "../../victim"])) = Some dd.
 Proof. exact w_climb_refused. Qed.
 
+(* DirFS opened on a root that ALREADY has content: the walk of DirFS enters every entry
+   into the overlay by the kind its stat reports.  [dirfs_mirror_stat], read from the
+   source: the DirEntry's own Info() — an lstat — and nothing else.  With an lstat the
+   overlay is exactly the image of the root ([mirror false] is the identity; [xinit] is
+   that image), so a link left there by an earlier run is a LINK in memory and the gate
+   above applies to it: on the witness root (links to a host directory, absolute and
+   relative, a dangling one, one to an in-root directory) Create / Remove beneath the
+   outside links are refused and nothing is touched outside.  With a stat that follows
+   links the same links are empty DIRECTORIES in memory, Create beneath them is accepted
+   and the kernel writes in the host directory (seeded change C18-7). *)
+Theorem c18_dirfs_mirror_is_lstat_image :
+  dirfs_mirror_stat = ["$1.Info"]%string /\
+  (forall h t cur, mirror false h cur t = t) /\
+  (forall b h, xinit_stat false b h = xinit b h) /\
+  (answers (xrun w_base false (xinit w_base w_host_pre) w_pre_ops) = [false; false; false; false; true] /\
+   forallb (fun t => forallb (fun q => negb (outside_base q)) t)
+     (touched (xrun w_base false (xinit w_base w_host_pre) w_pre_ops)) = true) /\
+  (answers (xrun w_base false (xinit_stat true w_base w_host_pre) w_pre_ops) = [true; true; false; false; true] /\
+   firstn 2 (touched (xrun w_base false (xinit_stat true w_base w_host_pre) w_pre_ops)) =
+     [[[s "n"; s "T"; s "victim"; s "job"]]; [[s "n"; s "T"; s "victim"; s "job"]]]).
+Proof.
+  split; [reflexivity|]. split; [exact mirror_lstat_id|]. split; [exact xinit_is_lstat_image|].
+  split; [exact (proj2 w_pre_lstat_refused) | exact w_pre_follow_escapes].
+Qed.
+Print Assumptions c18_dirfs_mirror_is_lstat_image.
+
 (* [get_pos], the lookup the operational model uses, is [get_node] (the one compared
    with the real trees by the paths stage) together with the place of the node *)
 Theorem c18_get_pos_is_get_node : forall fuel ml root path depth,
